@@ -13,8 +13,10 @@ def make_plan(H, tier, seed, nchunks=48, **extra):
         setup = getattr(H, "worker_setup", None)
         if setup:
             setup()
+        aff = getattr(H, "affinity", None)
         for idx, cell in enumerate(H.cells(tier)):
-            if idx % n != i:
+            a = aff(cell) if aff else None
+            if (idx if a is None else a) % n != i:
                 continue
             base.reset_mygrad()
             try:
@@ -27,6 +29,10 @@ def make_plan(H, tier, seed, nchunks=48, **extra):
                 del e
                 continue
             acc.inc("evaluations")
+            steps = getattr(H, "steps", None)
+            if steps:
+                acc.inc("transitions", steps(cell))
+                acc.inc("traces")
             if f is not None and f[0] == "skip":
                 acc.outcome("skipped:" + f[1])
                 continue
